@@ -44,6 +44,8 @@ func (i *Ignore) load(rootGoitPath string) error {
 	defer f.Close()
 
 	scanner := bufio.NewScanner(f)
+	// a line of any length is a pattern (or nonsense), never a reason to fail
+	scanner.Buffer(make([]byte, 0, 64*1024), 1<<30)
 	for scanner.Scan() {
 		text := scanner.Text()
 		// a blank line is not a pattern
